@@ -9,7 +9,7 @@
    (any running transfer, any store, any callback log) unless stated otherwise. *)
 From Coq Require Import ZArith List Bool.
 From CV Require Import Base.Val Base.Bytes Base.Tys Gen.Tables Gen.SdoTables Model.Codec Model.RefClient
-  Model.SdoServer Proofs.SdoServer_proofs Gen.SrcC02 Proofs.Src_eq_sdo.
+  Model.SdoServer Proofs.SdoServer_proofs Gen.SrcC02 Proofs.Src_eq_sdo Gen.SrcC06 Proofs.Src_eq_c06.
 Import ListNotations.
 Open Scope Z_scope.
 
@@ -118,9 +118,49 @@ Theorem C02_source_segmented_upload_is_model : forall st command buf, s_buf st =
   end.
 Proof. exact src_server_segmented_upload_eq. Qed.
 
+(* the same tie for the two translated functions that belong to C02's statement (Gen/SrcC06.v, tools/tables/src_c06.py) *)
+(* on_request dispatches on the client command specifier and turns every exception into exactly one abort *)
+Theorem C02_src_dispatch : forall d rcb st c rest,
+  on_request d rcb st (c :: rest) =
+  let h := src_dispatch c 0 in
+  let '(st1, r) :=
+    if h =? 1 then init_upload d rcb st (c :: rest)
+    else if h =? 2 then segmented_upload st c
+    else if h =? 3 then init_download d st (c :: rest)
+    else if h =? 4 then segmented_download d st c (c :: rest)
+    else if h =? 5 then (if src_block_upload 0 =? 1 then init_upload d rcb st (c :: rest) else (st, Err E_FUEL))
+    else if h =? 6 then (st, Abort (src_block_download 0))
+    else if h =? 7 then request_aborted st (c :: rest)
+    else (st, Abort 0x05040001) in
+  match r with
+  | Ok rs => (st1, rs, false)
+  | Abort code => do_abort st1 code
+  | Err k => do_abort st1 (if k =? E_KEY then 0x06020000 else src_abort_default)
+  end.
+Proof. exact src_dispatch_eq. Qed.
+
+(* segmented_download appends request[1:last_byte] (n honoured in every segment) and stores through set_data on the last segment *)
+Theorem C02_src_segmented_download : forall d st command req buf,
+  s_buf st = Some buf ->
+  let lb := 8 - Z.land (Z.shiftr command 1) 7 in
+  let buf1 := buf ++ firstn (Z.to_nat (lb - 1)) (skipn 1 req) in
+  let st1 := set_buf st (Some buf1) (s_toggle st) in
+  let sd := set_data d st1 (s_index st) (s_sub st) buf1 true in
+  let '(code, extended, last_byte, setcalled, resc, tg) :=
+    src_segmented_download command (s_toggle st) (code_of (snd sd)) false false in
+  if negb extended then code = 0x05030000 /\ segmented_download d st command req = (st, Abort code)
+  else last_byte = lb /\
+       if code =? 0 then
+         let st2 := if setcalled then fst sd else st1 in
+         segmented_download d st command req = (set_buf st2 (s_buf st2) tg, Ok [[resc; 0; 0; 0; 0; 0; 0; 0]])
+       else setcalled = true /\ segmented_download d st command req = (fst sd, Abort code).
+Proof. exact src_segmented_download_eq. Qed.
+
 Print Assumptions C02_upload_exact.
 Print Assumptions C02_download_exact.
 Print Assumptions C02_download_then_upload.
 Print Assumptions C02_one_response_per_request.
 Print Assumptions C02_step_invariant.
 Print Assumptions C02_source_segmented_upload_is_model.
+Print Assumptions C02_src_dispatch.
+Print Assumptions C02_src_segmented_download.
